@@ -248,10 +248,13 @@ def run_query(q, lane, logdir, playback=True):
     if p["verdict"] is None:
         out.update(status="inconclusive", reason="no verdict (rc=%s): %s" % (rc, p["error"] or text[-300:].replace("\n", " | ")))
         return out
-    if p["unwinding_failed"]:
+    if p["unwinding_failed"] and not (p["failed"] and not q.should_fail and not q.should_panic):
         out.update(status="inconclusive", reason="unwinding assertion failed: %s" % p["unwinding_failed"][0]["loc"],
                    unwinding_failed=p["unwinding_failed"][:5])
         return out
+    if p["unwinding_failed"]:
+        # a property check failed as well: the witness is replayed natively, which alone decides whether it is reported
+        out["unwinding_failed"] = p["unwinding_failed"][:5]
     if q.should_fail:
         # reachability twin: its final assert(false) must be reported as FAILURE
         if p["failed"]:
